@@ -90,6 +90,7 @@ def fresh(target):
 
 class C17(object):
     id = 'C17'
+    anchors = ('EquationSolver.ParseString', 'EquationSolver.SetInitialConditions', 'EquationSolver.SolveStep', 'Logger.register_standard_logs', 'Logger.cleanup', 'EquationSolver.AddFunction')
     title = 'Results depend only on the model, not on process history or diagnostics'
     max_shards = 16
     rule = ('one case = one target (book model SIM/SIMEX1/PC/REG with a drawn horizon, or a random equation block) '
